@@ -23,8 +23,8 @@ MANIFEST = {
             "leaves queue, con_active and outputs exactly as with a lost datagram), w_run_tracks_m_partial / w_single_outcome_partial / "
             "w_attempts_on_schedule_partial (every event list, every pattern of failing RETRANSMISSION writes: same state as the base "
             "model, so conservation, schedule of the write attempts and give-up after MAX_RETRANSMIT+1 attempts carry over).  "
-            "m_refines_timer (round R06, FULL - EVERY event list of setNow / prepare / submit CON with or without NSTART room / rxAck / "
-            "rxRst / rxBad / connect at any instant): simulation M -> S with the delay queue in the invariant and the S events taken in the order the "
+            "m_refines_timer (round R06, FULL - EVERY event list of the C06 alphabet RunG: setNow / prepare / submit CON with or without "
+            "NSTART room / submit NON / rxAck / rxRst / rxBad / rxNon / connect at any instant): simulation M -> S with the delay queue in the invariant and the S events taken in the order the "
             "code processes things (a drained Confirmable is S's `send` when it is really transmitted, one partial tick `tickN now 1` "
             "per iteration of the due loop): same pending list as lists, same transmissions in the same order, same outcome NACKs in "
             "the same order; lifted through it m_schedule_via_timer and m_single_outcome_via_timer (first transmissions = outcome "
@@ -129,8 +129,8 @@ ASSUMPTIONS = ["D7: ping_timeout = 0; transmission parameters where Q()'s uint16
                "`dev` of the write-failure model stays false); w_*_refused: exactly one first write fails, inside coap_send (the "
                "drain-loop break is the open finding drain_break_strands_delayed)",
                "m_refines_timer / m_schedule_via_timer / m_single_outcome_via_timer: events setNow (monotone), prepare, submit of a "
-               "Confirmable (T > 0, D7), rxAck, rxRst, rxBad, connect - any order, any instant; sessions established (SessOk); NON "
-               "messages and cancel-by-token have no counterpart in S (covered by the direct M-level theorems of section 7)",
+               "Confirmable (T > 0, D7) or of a NON, rxAck, rxRst, rxBad, rxNon, connect (= RunG, every event but hold / disconnect) - any "
+               "order, any instant; sessions established (SessOk)",
                "UDP client sessions, block mode off, no OSCORE, unicast; real-time behaviour of epoll_wait is not modelled "
                "(the harness is the event loop)",
                "compiled Lean definitions agree with the kernel's reading of them"]
